@@ -1,1 +1,922 @@
-//! hubsim: real CommandHub::run as a coroutine (stub)
+//! hubsim: the real, unmodified master loop (`sozu::command::server::CommandHub::run()`) driven as
+//! a coroutine of the simulator on a fresh thread. Workers are scripted actors holding the other
+//! end of each master<->worker `Channel`; CLI clients are scripted actors on the hub's real unix
+//! command socket (abstract name, so nothing touches the file system). Everything the actors
+//! observe is recorded with a global sequence number so that an oracle can order events that
+//! share a virtual timestamp.
+#![allow(dead_code)]
+
+use std::any::Any;
+use std::cell::Cell;
+use std::collections::{BTreeMap, VecDeque};
+use std::os::fd::IntoRawFd;
+use std::panic::{catch_unwind, AssertUnwindSafe};
+use std::rc::Rc;
+
+use mio::net::{UnixListener, UnixStream};
+use prost::Message;
+use sozu::command::server::{CommandHub, ServerState};
+use sozu_command_lib::{
+    channel::Channel,
+    config::{Config, ConfigBuilder, FileConfig},
+    proto::command::{
+        request::RequestType, response_content::ContentType, HardStop, Request, Response, ResponseContent,
+        ResponseStatus, Status, WorkerRequest, WorkerResponse,
+    },
+    scm_socket::ScmSocket,
+};
+
+use crate::actors::{rd, wr, Io, Quantum};
+use crate::prng::Prng;
+use crate::sys;
+use crate::world::{Actor, Step, World, SEC};
+
+// ------------------------------------------------------------------------------------ engine
+
+#[derive(Clone, Debug, serde::Serialize, serde::Deserialize, PartialEq)]
+pub struct HubKnobs {
+    /// `worker_timeout` of the main process, seconds
+    pub worker_timeout: u32,
+    pub command_buffer_size: u64,
+    pub max_command_buffer_size: u64,
+    /// SO_SNDBUF applied to the hub's end of every worker channel (None = kernel default)
+    pub worker_sndbuf: Option<i32>,
+}
+impl Default for HubKnobs {
+    fn default() -> Self {
+        HubKnobs { worker_timeout: 10, command_buffer_size: 16384, max_command_buffer_size: 163840, worker_sndbuf: None }
+    }
+}
+
+pub fn hub_config(k: &HubKnobs, sock: &str) -> Config {
+    let fc = FileConfig {
+        command_socket: Some(sock.to_string()),
+        command_buffer_size: Some(k.command_buffer_size),
+        max_command_buffer_size: Some(k.max_command_buffer_size),
+        worker_count: Some(0),
+        worker_automatic_restart: Some(false),
+        worker_timeout: Some(k.worker_timeout),
+        ..FileConfig::default()
+    };
+    ConfigBuilder::new(fc, "/nonexistent/hubsim/config.toml").into_config().expect("hub config")
+}
+
+pub fn fake_pid(worker_id: u32) -> i32 { 4_100_000 + worker_id as i32 }
+
+/// The scripted side of one worker: the raw fd of the worker's end of the command channel.
+pub struct WorkerEnd {
+    pub id: u32,
+    pub pid: i32,
+    pub fd: i32,
+}
+
+/// Handle with which the controller can push a wedged hub out of `run()` (emergency only: a run
+/// that needs it is reported as a violation by the property).
+#[derive(Clone, Copy)]
+pub struct ForceStop(*mut ServerState);
+impl ForceStop {
+    pub fn fire(&self) {
+        // The hub is suspended inside `poll()`; it re-reads `run_state` at the top of its loop.
+        unsafe { std::ptr::write_volatile(self.0, ServerState::Stopping) };
+    }
+}
+
+pub struct HubEnv {
+    /// abstract name of the hub's command socket
+    pub sock_name: Vec<u8>,
+    pub workers: Vec<WorkerEnd>,
+    pub force: ForceStop,
+}
+
+#[derive(Clone, Debug, Default)]
+pub struct HubEnd {
+    pub panicked: Option<String>,
+    pub aborted: Option<String>,
+    pub boot_error: Option<String>,
+    /// `run()` returned
+    pub returned: bool,
+    /// virtual time at which `run()` returned
+    pub t_return: u64,
+    pub kills: Vec<(i32, i32)>,
+}
+
+static HUBCTR: std::sync::atomic::AtomicU64 = std::sync::atomic::AtomicU64::new(0);
+
+/// Runs one hub to completion on the *current* thread under `world` (install happens here).
+/// `setup` adds the actors. After `run()` returned (or panicked) the remaining actors are stepped
+/// until all are done so that clients can drain what the hub flushed before exiting.
+pub fn run_hub(world: &mut Box<World>, knobs: &HubKnobs, n_workers: usize, setup: impl FnOnce(&mut World, &HubEnv)) -> HubEnd {
+    World::install(world);
+    let mut end = HubEnd::default();
+    let n = HUBCTR.fetch_add(1, std::sync::atomic::Ordering::SeqCst);
+    // not "simk/...": the accept/getpeername hooks must treat this as a plain unix socket
+    let sock_name = format!("hubsim/{}.{}", sys::getpid(), n).into_bytes();
+    let listener = {
+        use std::os::linux::net::SocketAddrExt;
+        let addr = std::os::unix::net::SocketAddr::from_abstract_name(&sock_name).expect("abstract name");
+        UnixListener::bind_addr(&addr)
+    };
+    let listener = match listener {
+        Ok(l) => l,
+        Err(e) => { end.boot_error = Some(format!("bind: {e}")); World::uninstall(); return end; }
+    };
+    let config = hub_config(knobs, "/nonexistent/hubsim/sozu.sock");
+    let mut hub = match CommandHub::new(listener, config, "/nonexistent/hubsim/sozu".to_string()) {
+        Ok(h) => h,
+        Err(e) => { end.boot_error = Some(format!("{e}")); World::uninstall(); return end; }
+    };
+    let mut scm_fds = Vec::new();
+    let mut workers = Vec::new();
+    for id in 0..n_workers as u32 {
+        let (cmd_main, cmd_worker) = UnixStream::pair().expect("pair");
+        let (scm_main, scm_worker) = UnixStream::pair().expect("pair");
+        if let Some(sb) = knobs.worker_sndbuf {
+            use std::os::fd::AsRawFd;
+            let _ = sys::setsockopt_int(cmd_main.as_raw_fd(), libc::SOL_SOCKET, libc::SO_SNDBUF, sb);
+        }
+        let channel: Channel<WorkerRequest, WorkerResponse> = Channel::new(cmd_main, knobs.command_buffer_size, knobs.max_command_buffer_size);
+        let scm_main_fd = scm_main.into_raw_fd();
+        let scm_worker_fd = scm_worker.into_raw_fd();
+        scm_fds.push(scm_main_fd);
+        // Scripted workers never use the SCM socket. Its worker side is closed at once so that a
+        // blocking `receive_listeners()` in the master (worker upgrade after an OK to
+        // ReturnListenSockets) fails immediately instead of blocking the simulation thread for real;
+        // the master then refuses the upgrade before it would fork.
+        sys::close(scm_worker_fd);
+        let scm = ScmSocket::new(scm_main_fd).expect("scm");
+        if let Err(e) = hub.server.register_worker(id, fake_pid(id), channel, scm) {
+            end.boot_error = Some(format!("register_worker: {e}"));
+        }
+        workers.push(WorkerEnd { id, pid: fake_pid(id), fd: cmd_worker.into_raw_fd() });
+    }
+    let env = HubEnv { sock_name, workers, force: ForceStop(&mut hub.server.run_state as *mut ServerState) };
+    setup(world, &env);
+    if let Ok(level) = std::env::var("SIMK_SOZU_LOG") {
+        let _ = sozu_command_lib::logging::setup_default_logging(false, &level, "HUB");
+    } else {
+        // The uninitialised sozu logger prints every error! to stdout; a plan that overflows a
+        // channel buffer logs tens of kilobytes, enough to fill the pipe of a child process whose
+        // parent reads only after exit. This thread's logger is switched off instead.
+        let (directives, _) = sozu_command_lib::logging::parse_logging_spec("off");
+        sozu_command_lib::logging::LOGGER.with(|l| l.borrow_mut().set_directives(directives));
+    }
+    if end.boot_error.is_none() {
+        let r = catch_unwind(AssertUnwindSafe(|| { hub.run(); }));
+        match r {
+            Ok(()) => { end.returned = true; }
+            Err(p) => {
+                let msg = if let Some(s) = p.downcast_ref::<&str>() { s.to_string() } else if let Some(s) = p.downcast_ref::<String>() { s.clone() } else { "panic".into() };
+                end.panicked = Some(msg);
+            }
+        }
+    }
+    end.t_return = world.now;
+    world.tr(0x4E, end.returned as u64);
+    world.board_set("hub_returned", 1);
+    // the hub is gone: closes the listener, the epoll instance, every client and worker channel
+    let dropped = catch_unwind(AssertUnwindSafe(move || drop(hub)));
+    if dropped.is_err() && end.panicked.is_none() { end.panicked = Some("panic while dropping the hub".into()); }
+    // ScmSocket has no Drop
+    for fd in scm_fds { sys::close(fd); }
+    // let the peers observe the end (EOF) and finish
+    drain_actors(world);
+    end.aborted = world.aborted.clone();
+    end.kills = world.kills.clone();
+    world.stats.virtual_ns = world.now - 1000 * SEC;
+    World::uninstall();
+    end
+}
+
+/// Step the remaining actors (with virtual time advancing) until all are done.
+fn drain_actors(world: &mut World) {
+    let ep = unsafe { sys::sc!(libc::SYS_epoll_create1, libc::EPOLL_CLOEXEC) } as i32;
+    if ep < 0 { return; }
+    let mut ev = [libc::epoll_event { events: 0, u64: 0 }; 1];
+    let mut rounds = 0;
+    while !world.all_done() && rounds < 10_000 && world.aborted.is_none() {
+        crate::world::epoll_wait_entry(world as *mut World, ep, ev.as_mut_ptr(), 1, 1000);
+        rounds += 1;
+    }
+    sys::close(ep);
+}
+
+// ------------------------------------------------------------------------------------ framing
+
+pub fn frame<M: Message>(m: &M) -> Vec<u8> {
+    let payload = m.encode_to_vec();
+    let mut v = Vec::with_capacity(payload.len() + 8);
+    v.extend_from_slice(&((payload.len() + 8) as u64).to_le_bytes());
+    v.extend_from_slice(&payload);
+    v
+}
+
+/// Pops one complete frame off `buf`. Err = garbage length.
+fn pop_frame(buf: &mut Vec<u8>) -> Result<Option<Vec<u8>>, String> {
+    if buf.len() < 8 { return Ok(None); }
+    let len = u64::from_le_bytes(buf[..8].try_into().unwrap()) as usize;
+    if len < 8 || len > 64 << 20 { return Err(format!("bad frame length {len}")); }
+    if buf.len() < len { return Ok(None); }
+    let f: Vec<u8> = buf.drain(..len).collect();
+    Ok(Some(f[8..].to_vec()))
+}
+
+/// Shared observation clock: orders events that share a virtual timestamp.
+#[derive(Clone, Default)]
+pub struct Seq(Rc<Cell<u64>>);
+impl Seq {
+    pub fn next(&self) -> u64 { let v = self.0.get() + 1; self.0.set(v); v }
+}
+
+/// `tag<NNN>q` markers make request content client-unique and recognisable wherever it is echoed.
+pub fn tag_str(n: u32) -> String { format!("tag{n:03}q") }
+pub fn find_tags(s: &str) -> Vec<u32> {
+    let b = s.as_bytes();
+    let mut out = Vec::new();
+    let mut i = 0;
+    while i + 7 <= b.len() {
+        if &b[i..i + 3] == b"tag" && b[i + 3..i + 6].iter().all(|c| c.is_ascii_digit()) && b[i + 6] == b'q' {
+            let n: u32 = s[i + 3..i + 6].parse().unwrap();
+            if !out.contains(&n) { out.push(n); }
+            i += 7;
+        } else { i += 1; }
+    }
+    out
+}
+
+pub fn verb_name(r: &Request) -> String {
+    let d = format!("{:?}", r.request_type);
+    // "Some(AddCluster(Cluster {..." -> "AddCluster"
+    let d = d.strip_prefix("Some(").unwrap_or(&d);
+    d.chars().take_while(|c| c.is_ascii_alphanumeric()).collect()
+}
+
+// ------------------------------------------------------------------------------------ scripted worker
+
+#[derive(Clone, Debug, serde::Serialize, serde::Deserialize, PartialEq)]
+pub enum Beh {
+    Ok,
+    Failure,
+    /// PROCESSING now, OK after the delay (ns)
+    ProcessingOk(u64),
+    /// OK after the delay (ns), shorter than the worker timeout
+    SlowOk(u64),
+    Silent,
+    /// OK this long (ns) after the request arrived, chosen beyond the worker timeout
+    Late(u64),
+    CloseBefore,
+    /// OK, then close after the delay (ns)
+    CloseAfter(u64),
+    /// OK twice, the second after the delay (ns)
+    DupOk(u64),
+    /// an OK carrying an id the hub never issued, then the real OK
+    UnknownThenOk,
+    /// no answer, and the worker stops reading its channel from here on
+    Stall,
+}
+impl Beh {
+    pub fn name(&self) -> &'static str {
+        match self {
+            Beh::Ok => "ok", Beh::Failure => "failure", Beh::ProcessingOk(_) => "processing_ok", Beh::SlowOk(_) => "slow_ok",
+            Beh::Silent => "silent", Beh::Late(_) => "late", Beh::CloseBefore => "closed", Beh::CloseAfter(_) => "close_after_ok",
+            Beh::DupOk(_) => "duplicate_ok", Beh::UnknownThenOk => "unknown_id_then_ok", Beh::Stall => "stalled",
+        }
+    }
+    /// would a worker following this script acknowledge the request with OK in time?
+    pub fn acks(&self) -> bool {
+        matches!(self, Beh::Ok | Beh::ProcessingOk(_) | Beh::SlowOk(_) | Beh::CloseAfter(_) | Beh::DupOk(_) | Beh::UnknownThenOk)
+    }
+}
+
+#[derive(Clone, Debug)]
+pub struct WRec {
+    pub hub_id: String,
+    pub verb: String,
+    pub tags: Vec<u32>,
+    /// entry index inside a multi-request verb (`tagNNNq-e<k>`)
+    pub entry: Option<u32>,
+    pub t_recv: u64,
+    pub seq_recv: u64,
+    pub beh: String,
+    /// (virtual time, seq, status) of every response actually written for this id
+    pub sent: Vec<(u64, u64, i32)>,
+}
+
+#[derive(Clone, Debug, Default)]
+pub struct WorkerObs {
+    pub id: u32,
+    pub recs: Vec<WRec>,
+    pub t_closed: Option<u64>,
+    pub seq_closed: Option<u64>,
+    pub killed: bool,
+    pub stalled_since: Option<u64>,
+    pub eof: bool,
+    pub garbage: Option<String>,
+    pub bytes_in: u64,
+    /// bytes the master had sent that the worker had not consumed when it closed its channel
+    pub unread_at_close: u64,
+}
+
+enum WAct { Send { bytes: Vec<u8>, rec: usize, status: i32 }, Close }
+
+pub type Decide = Box<dyn FnMut(&WorkerRequest, &[u32], Option<u32>) -> Beh>;
+
+pub struct ScriptedWorker {
+    pub id: u32,
+    pub pid: i32,
+    fd: i32,
+    inbuf: Vec<u8>,
+    /// (due, order, action)
+    pending: Vec<(u64, u64, WAct)>,
+    out: VecDeque<(Vec<u8>, usize, i32, usize)>, // bytes, rec, status, written
+    order: u64,
+    reading: bool,
+    decide: Decide,
+    pub obs: WorkerObs,
+    seq: Seq,
+    wq: Quantum,
+    rng: Prng,
+    worker_timeout_ns: u64,
+}
+
+impl ScriptedWorker {
+    pub fn new(end: &WorkerEnd, seq: Seq, wq: Quantum, rng: Prng, worker_timeout_ns: u64, decide: Decide) -> ScriptedWorker {
+        sys::set_nonblocking(end.fd, true);
+        ScriptedWorker {
+            id: end.id, pid: end.pid, fd: end.fd, inbuf: Vec::new(), pending: Vec::new(), out: VecDeque::new(), order: 0, reading: true,
+            decide, obs: WorkerObs { id: end.id, ..Default::default() }, seq, wq, rng, worker_timeout_ns,
+        }
+    }
+    fn close(&mut self, w: &mut World) {
+        if self.fd >= 0 {
+            let mut n: libc::c_int = 0;
+            unsafe { sys::sc!(libc::SYS_ioctl, self.fd, libc::FIONREAD, &mut n as *mut libc::c_int) };
+            self.obs.unread_at_close = n.max(0) as u64 + self.inbuf.len() as u64;
+            sys::close(self.fd);
+            self.fd = -1;
+            self.obs.t_closed = Some(w.now);
+            self.obs.seq_closed = Some(self.seq.next());
+            w.tr(0x5C, self.id as u64);
+        }
+    }
+    fn response(id: &str, status: ResponseStatus, message: String, content: Option<ResponseContent>) -> Vec<u8> {
+        frame(&WorkerResponse { id: id.to_string(), status: status as i32, message, content })
+    }
+    fn content_for(&self, req: &WorkerRequest, tag: Option<u32>) -> Option<ResponseContent> {
+        use sozu_command_lib::proto::command::{filtered_metrics, Cluster, ClusterHashes, ClusterInformation, ClusterInformations, ClusterMetrics, FilteredMetrics, WorkerMetrics};
+        let t = tag.map(tag_str).unwrap_or_else(|| format!("w{}", self.id));
+        let ct = match req.content.request_type.as_ref()? {
+            RequestType::QueryClusterById(_) | RequestType::QueryClustersByDomain(_) => ContentType::Clusters(ClusterInformations {
+                vec: vec![ClusterInformation { configuration: Some(Cluster { cluster_id: t, ..Default::default() }), ..Default::default() }],
+            }),
+            RequestType::QueryClustersHashes(_) => ContentType::ClusterHashes(ClusterHashes { map: [(format!("w{}", self.id), 1u64)].into_iter().collect() }),
+            RequestType::QueryMetrics(o) if !o.list => ContentType::WorkerMetrics(WorkerMetrics {
+                proxy: Default::default(),
+                clusters: [(t, ClusterMetrics {
+                    cluster: [("requests".to_string(), FilteredMetrics { inner: Some(filtered_metrics::Inner::Count(1)) })].into_iter().collect(),
+                    backends: vec![],
+                })].into_iter().collect(),
+            }),
+            _ => return None,
+        };
+        Some(ResponseContent { content_type: Some(ct) })
+    }
+    fn on_request(&mut self, w: &mut World, req: WorkerRequest) {
+        let dbg = format!("{:?}", req.content);
+        let tags = find_tags(&dbg);
+        let entry = dbg.find("q-e").and_then(|i| dbg[i + 3..].chars().take_while(|c| c.is_ascii_digit()).collect::<String>().parse().ok());
+        // end phase of a plan: every worker that is still there behaves
+        let end_phase = w.board_get("end") > 0;
+        let beh = if end_phase { Beh::Ok } else { (self.decide)(&req, &tags, entry) };
+        let rec = self.obs.recs.len();
+        self.obs.recs.push(WRec { hub_id: req.id.clone(), verb: verb_name(&req.content), tags: tags.clone(), entry, t_recv: w.now, seq_recv: self.seq.next(), beh: if end_phase { "end_ok".to_string() } else { beh.name().to_string() }, sent: Vec::new() });
+        w.tr(0x51, (self.id as u64) << 32 | tags.first().copied().unwrap_or(999) as u64);
+        let tag = tags.first().copied();
+        let msg = format!("w{} {}", self.id, tag.map(tag_str).unwrap_or_default());
+        let ok = |s: &Self| Self::response(&req.id, ResponseStatus::Ok, msg.clone(), s.content_for(&req, tag));
+        let now = w.now;
+        let push = |s: &mut Self, due: u64, a: WAct| { s.order += 1; let o = s.order; s.pending.push((due, o, a)); };
+        let st_ok = ResponseStatus::Ok as i32;
+        match beh {
+            Beh::Ok => { let b = ok(self); push(self, now, WAct::Send { bytes: b, rec, status: st_ok }); }
+            Beh::Failure => {
+                let b = Self::response(&req.id, ResponseStatus::Failure, format!("{msg} nope"), None);
+                push(self, now, WAct::Send { bytes: b, rec, status: ResponseStatus::Failure as i32 });
+            }
+            Beh::ProcessingOk(d) => {
+                let p = Self::response(&req.id, ResponseStatus::Processing, format!("{msg} working"), None);
+                push(self, now, WAct::Send { bytes: p, rec, status: ResponseStatus::Processing as i32 });
+                let b = ok(self);
+                push(self, now + d, WAct::Send { bytes: b, rec, status: st_ok });
+            }
+            Beh::SlowOk(d) => { let b = ok(self); push(self, now + d, WAct::Send { bytes: b, rec, status: st_ok }); }
+            Beh::Silent => {}
+            Beh::Late(d) => { let b = ok(self); push(self, now + d, WAct::Send { bytes: b, rec, status: st_ok }); }
+            Beh::CloseBefore => { push(self, now, WAct::Close); }
+            Beh::CloseAfter(d) => { let b = ok(self); push(self, now, WAct::Send { bytes: b, rec, status: st_ok }); push(self, now + d, WAct::Close); }
+            Beh::DupOk(d) => { let b = ok(self); push(self, now, WAct::Send { bytes: b.clone(), rec, status: st_ok }); push(self, now + d, WAct::Send { bytes: b, rec, status: st_ok }); }
+            Beh::UnknownThenOk => {
+                let bogus = Self::response(&format!("{}-bogus", req.id), ResponseStatus::Ok, msg.clone(), None);
+                push(self, now, WAct::Send { bytes: bogus, rec: usize::MAX, status: st_ok });
+                let b = ok(self);
+                push(self, now, WAct::Send { bytes: b, rec, status: st_ok });
+            }
+            Beh::Stall => { self.reading = false; self.obs.stalled_since = Some(now); w.stats.fault("worker_stall"); }
+        }
+    }
+}
+
+impl Actor for ScriptedWorker {
+    fn name(&self) -> String { format!("worker{}", self.id) }
+    fn as_any(&mut self) -> &mut dyn Any { self }
+    fn as_any_ref(&self) -> &dyn Any { self }
+    fn class(&self) -> u8 { 1 }
+
+    fn step(&mut self, w: &mut World) -> Step {
+        if self.fd < 0 { return Step::Done; }
+        // SIGKILL from the master: the process is gone, the kernel closes its descriptors
+        if !self.obs.killed && w.kills.iter().any(|(pid, _)| *pid == self.pid) {
+            self.obs.killed = true;
+            self.close(w);
+            return Step::Done;
+        }
+        if w.board_get("end") > 0 && !self.reading { self.reading = true; }
+        let mut progressed = false;
+        // read
+        if self.reading {
+            let mut buf = [0u8; 16384];
+            loop {
+                match rd(self.fd, &mut buf) {
+                    Io::N(n) => { progressed = true; self.obs.bytes_in += n as u64; self.inbuf.extend_from_slice(&buf[..n]); }
+                    Io::WouldBlock => break,
+                    Io::Eof | Io::Err(_) => {
+                        // the master is gone
+                        self.obs.eof = true;
+                        sys::close(self.fd);
+                        self.fd = -1;
+                        return Step::Done;
+                    }
+                }
+            }
+            loop {
+                if !self.reading { break; }
+                match pop_frame(&mut self.inbuf) {
+                    Ok(Some(payload)) => match WorkerRequest::decode(&payload[..]) {
+                        Ok(req) => { progressed = true; self.on_request(w, req); }
+                        Err(e) => { self.obs.garbage = Some(format!("undecodable request: {e}")); }
+                    },
+                    Ok(None) => break,
+                    Err(e) => { self.obs.garbage = Some(e); self.inbuf.clear(); break; }
+                }
+            }
+        }
+        // due actions, in (due, order) order
+        self.pending.sort_by_key(|(d, o, _)| (*d, *o));
+        while !self.pending.is_empty() && self.pending[0].0 <= w.now {
+            let (_, _, a) = self.pending.remove(0);
+            match a {
+                WAct::Send { bytes, rec, status } => self.out.push_back((bytes, rec, status, 0)),
+                WAct::Close => {
+                    // a dying process does not flush user-space queues
+                    self.out.clear();
+                    self.close(w);
+                    return Step::Done;
+                }
+            }
+            progressed = true;
+        }
+        // write one quantum
+        if let Some((bytes, rec, status, written)) = self.out.front_mut() {
+            let q = self.wq.draw(&mut self.rng).min(bytes.len() - *written);
+            match wr(self.fd, &bytes[*written..*written + q]) {
+                Io::N(n) => {
+                    *written += n;
+                    if *written == bytes.len() {
+                        let (rec, status) = (*rec, *status);
+                        self.out.pop_front();
+                        let s = self.seq.next();
+                        if rec != usize::MAX { self.obs.recs[rec].sent.push((w.now, s, status)); }
+                        w.tr(0x52, status as u64);
+                    }
+                    return Step::Progress;
+                }
+                Io::WouldBlock => {}
+                _ => { self.obs.eof = true; sys::close(self.fd); self.fd = -1; return Step::Done; }
+            }
+        }
+        if progressed { return Step::Progress; }
+        match self.pending.iter().map(|p| p.0).min() {
+            Some(t) => Step::Idle(t.max(w.now + 1)),
+            None => Step::Blocked,
+        }
+    }
+}
+impl Drop for ScriptedWorker {
+    fn drop(&mut self) { if self.fd >= 0 { sys::close(self.fd); self.fd = -1; } }
+}
+
+// ------------------------------------------------------------------------------------ CLI client
+
+#[derive(Clone, Debug)]
+pub struct RespObs {
+    pub t: u64,
+    pub seq: u64,
+    pub status: i32,
+    pub message: String,
+    pub tags: Vec<u32>,
+    pub content: Option<ResponseContent>,
+}
+
+#[derive(Clone, Debug, Default)]
+pub struct ReqObs {
+    pub t_send: Option<u64>,
+    pub seq_send: Option<u64>,
+    pub responses: Vec<RespObs>,
+    pub gave_up: bool,
+}
+impl ReqObs {
+    pub fn finals(&self) -> Vec<&RespObs> { self.responses.iter().filter(|r| r.status != ResponseStatus::Processing as i32).collect() }
+}
+
+#[derive(Clone, Debug, Default)]
+pub struct ClientObs {
+    pub connect_error: Option<i32>,
+    pub reqs: Vec<ReqObs>,
+    /// responses that arrived while no request was outstanding
+    pub stray: Vec<RespObs>,
+    /// responses that arrived after the client had given up waiting for one of its requests
+    pub after_give_up: Vec<RespObs>,
+    pub eof_at: Option<u64>,
+    pub io_err: Option<i32>,
+    pub garbage: Option<String>,
+    pub t_done: Option<u64>,
+}
+
+#[derive(Clone, Debug, PartialEq)]
+enum CState { Start, Gate, Send, Await, Think(u64), Linger, Done }
+
+pub struct CliClient {
+    pub idx: usize,
+    sock_name: Vec<u8>,
+    fd: i32,
+    start_at: u64,
+    requests: Vec<Request>,
+    /// board gate before request i may be sent: (key, value)
+    pub gates: BTreeMap<usize, (String, i64)>,
+    /// send every request at once, then read (a client that does not wait for answers)
+    pub pipelined: bool,
+    think_ns: u64,
+    /// how long to wait for a final answer before giving up on a request
+    patience_ns: u64,
+    /// after the last request: keep the connection open (and keep reading) until the board says "end"
+    pub linger: bool,
+    wq: Quantum,
+    rng: Prng,
+    seq: Seq,
+    state: CState,
+    cur: usize,
+    out: Vec<u8>,
+    inbuf: Vec<u8>,
+    deadline: u64,
+    pub obs: ClientObs,
+    done_key: Option<String>,
+}
+
+impl CliClient {
+    pub fn new(idx: usize, env: &HubEnv, seq: Seq, rng: Prng, start_at: u64, requests: Vec<Request>, think_ns: u64, patience_ns: u64, wq: Quantum) -> CliClient {
+        let n = requests.len();
+        CliClient {
+            idx, sock_name: env.sock_name.clone(), fd: -1, start_at, requests, gates: BTreeMap::new(), pipelined: false, think_ns, patience_ns,
+            linger: true, wq, rng, seq, state: CState::Start, cur: 0, out: Vec::new(), inbuf: Vec::new(), deadline: 0,
+            obs: ClientObs { reqs: vec![ReqObs::default(); n], ..Default::default() }, done_key: Some("clients_done".into()),
+        }
+    }
+    pub fn without_done_key(mut self) -> Self { self.done_key = None; self }
+    fn finish(&mut self, _w: &mut World) -> Step {
+        if self.fd >= 0 { sys::close(self.fd); self.fd = -1; }
+        self.state = CState::Done;
+        Step::Done
+    }
+    fn mark_done(&mut self, w: &mut World) {
+        if self.obs.t_done.is_none() {
+            self.obs.t_done = Some(w.now);
+            if let Some(k) = self.done_key.clone() { w.board_add(&k, 1); }
+        }
+    }
+    /// read everything available; returns (progressed, eof)
+    fn pump(&mut self, w: &mut World) -> bool {
+        let mut progressed = false;
+        let mut buf = [0u8; 16384];
+        loop {
+            match rd(self.fd, &mut buf) {
+                Io::N(n) => { progressed = true; self.inbuf.extend_from_slice(&buf[..n]); }
+                Io::WouldBlock => break,
+                Io::Eof => { if self.obs.eof_at.is_none() { self.obs.eof_at = Some(w.now); progressed = true; } break; }
+                Io::Err(e) => { if self.obs.eof_at.is_none() { self.obs.eof_at = Some(w.now); self.obs.io_err = Some(e); progressed = true; } break; }
+            }
+        }
+        loop {
+            match pop_frame(&mut self.inbuf) {
+                Ok(Some(payload)) => match Response::decode(&payload[..]) {
+                    Ok(resp) => {
+                        let tags = find_tags(&format!("{:?}", resp));
+                        let o = RespObs { t: w.now, seq: self.seq.next(), status: resp.status, message: resp.message.clone(), tags, content: resp.content.clone() };
+                        w.tr(0x61, (self.idx as u64) << 8 | resp.status as u64);
+                        // attribute to the oldest request that was sent and has no final answer yet
+                        let target = (0..self.obs.reqs.len()).find(|i| self.obs.reqs[*i].t_send.is_some() && self.obs.reqs[*i].finals().is_empty() && !self.obs.reqs[*i].gave_up);
+                        // nothing outstanding: an extra answer to the request answered last
+                        let last_answered = (0..self.obs.reqs.len()).rev().find(|i| !self.obs.reqs[*i].finals().is_empty());
+                        // an answer that arrives after the client stopped waiting for some request cannot be attributed
+                        if target.is_none() && self.obs.reqs.iter().any(|r| r.gave_up && r.t_send.is_some()) { self.obs.after_give_up.push(o); continue; }
+                        match (target, last_answered) {
+                            (Some(i), _) => self.obs.reqs[i].responses.push(o),
+                            (None, Some(i)) if !self.pipelined => self.obs.reqs[i].responses.push(o),
+                            _ => self.obs.stray.push(o),
+                        }
+                    }
+                    Err(e) => { self.obs.garbage = Some(format!("undecodable response: {e}")); }
+                },
+                Ok(None) => break,
+                Err(e) => { self.obs.garbage = Some(e); self.inbuf.clear(); break; }
+            }
+        }
+        progressed
+    }
+}
+
+impl Actor for CliClient {
+    fn name(&self) -> String { format!("client{}", self.idx) }
+    fn as_any(&mut self) -> &mut dyn Any { self }
+    fn as_any_ref(&self) -> &dyn Any { self }
+
+    fn step(&mut self, w: &mut World) -> Step {
+        match self.state.clone() {
+            CState::Done => Step::Done,
+            CState::Start => {
+                if w.now < self.start_at { return Step::Sleep(self.start_at); }
+                let fd = match sys::socket(libc::AF_UNIX, libc::SOCK_STREAM | libc::SOCK_NONBLOCK | libc::SOCK_CLOEXEC, 0) {
+                    Ok(fd) => fd,
+                    Err(e) => { self.obs.connect_error = Some(e); self.mark_done(w); return self.finish(w); }
+                };
+                if let Err(e) = sys::connect_abstract(fd, &self.sock_name) {
+                    sys::close(fd);
+                    self.obs.connect_error = Some(e);
+                    self.mark_done(w);
+                    return self.finish(w);
+                }
+                self.fd = fd;
+                w.tr(0x60, self.idx as u64);
+                self.state = if self.requests.is_empty() { CState::Linger } else { CState::Gate };
+                if self.requests.is_empty() { self.mark_done(w); }
+                Step::Progress
+            }
+            CState::Gate => {
+                if w.board_get("end") > 0 { self.mark_done(w); return self.finish(w); }
+                if let Some((k, v)) = self.gates.get(&self.cur) {
+                    if w.board_get(k) < *v { return Step::Blocked; }
+                }
+                if self.pipelined {
+                    for i in self.cur..self.requests.len() { self.out.extend_from_slice(&frame(&self.requests[i])); }
+                } else {
+                    self.out.extend_from_slice(&frame(&self.requests[self.cur]));
+                }
+                self.state = CState::Send;
+                Step::Progress
+            }
+            CState::Send => {
+                let q = self.wq.draw(&mut self.rng).min(self.out.len());
+                match wr(self.fd, &self.out[..q]) {
+                    Io::N(n) => { self.out.drain(..n); }
+                    Io::WouldBlock => return Step::Blocked,
+                    Io::Eof => { self.out.clear(); self.obs.eof_at.get_or_insert(w.now); }
+                    Io::Err(e) => { self.obs.io_err = Some(e); self.obs.eof_at.get_or_insert(w.now); self.out.clear(); }
+                }
+                if self.out.is_empty() {
+                    // the request is on the wire from this instant (the answer may be read at the very next step)
+                    let (t, upto) = (w.now, if self.pipelined { self.requests.len() } else { self.cur + 1 });
+                    for i in self.cur..upto { self.obs.reqs[i].t_send = Some(t); self.obs.reqs[i].seq_send = Some(self.seq.next()); }
+                    w.tr(0x62, self.cur as u64);
+                    self.deadline = w.now + self.patience_ns;
+                    self.state = CState::Await;
+                }
+                Step::Progress
+            }
+            CState::Await => {
+                let progressed = self.pump(w);
+                let last = if self.pipelined { self.requests.len() - 1 } else { self.cur };
+                let all_final = (self.cur..=last).all(|i| !self.obs.reqs[i].finals().is_empty());
+                if all_final {
+                    self.cur = last + 1;
+                    self.state = if self.cur >= self.requests.len() { CState::Linger } else { CState::Think(w.now + self.think_ns) };
+                    if self.cur >= self.requests.len() { self.mark_done(w); }
+                    return Step::Progress;
+                }
+                if self.obs.eof_at.is_some() || w.now >= self.deadline || w.board_get("end") > 0 {
+                    // no (further) answer will be waited for
+                    for i in self.cur..self.requests.len() { if self.obs.reqs[i].finals().is_empty() { self.obs.reqs[i].gave_up = true; } }
+                    self.cur = self.requests.len();
+                    self.mark_done(w);
+                    self.state = CState::Linger;
+                    return Step::Progress;
+                }
+                if progressed { Step::Progress } else { Step::Idle(self.deadline) }
+            }
+            CState::Think(t) => {
+                let _ = self.pump(w);
+                if w.now < t { return Step::Idle(t); }
+                self.state = CState::Gate;
+                Step::Progress
+            }
+            CState::Linger => {
+                let progressed = self.pump(w);
+                if !self.linger || self.obs.eof_at.is_some() || w.board_get("end") > 0 { return self.finish(w); }
+                if progressed { Step::Progress } else { Step::Blocked }
+            }
+        }
+    }
+}
+impl Drop for CliClient {
+    fn drop(&mut self) { if self.fd >= 0 { sys::close(self.fd); self.fd = -1; } }
+}
+
+// ------------------------------------------------------------------------------------ controller
+
+#[derive(Clone, Debug, Default)]
+pub struct ControllerObs {
+    /// the hub accepted the probe connection
+    pub probe_connected: bool,
+    pub probe_connect_error: Option<i32>,
+    /// final status of the probe `Status` request, with the virtual time it took
+    pub probe_final: Option<(i32, u64)>,
+    pub probe_content: Option<ResponseContent>,
+    pub stop_final: Option<i32>,
+    pub eof: bool,
+    pub forced: bool,
+    pub t_end_phase: u64,
+    pub waited_out: bool,
+}
+
+#[derive(Clone, Debug, PartialEq)]
+enum KState { WaitClients, Connect, SendProbe, AwaitProbe, SendStop, AwaitStop, Forced(u64), Done }
+
+/// End-of-plan controller: waits until every plan client is done (or a hard deadline), switches
+/// the world to its end phase (`board["end"]=1`: workers answer OK at once and read again, clients
+/// close), checks that the hub still serves a fresh client (`Status` through the scatter path) and
+/// finally makes `run()` return with a HardStop. Never finishes before the hub is gone, so the
+/// scheduler always has a wake-up time (no deadlock while the hub sleeps without timeout).
+pub struct Controller {
+    sock_name: Vec<u8>,
+    n_clients: i64,
+    hard_deadline: u64,
+    step_patience: u64,
+    force: ForceStop,
+    fd: i32,
+    state: KState,
+    out: Vec<u8>,
+    inbuf: Vec<u8>,
+    t0: u64,
+    deadline: u64,
+    pub probe: bool,
+    pub obs: ControllerObs,
+}
+impl Controller {
+    pub fn new(env: &HubEnv, n_clients: usize, hard_deadline: u64, step_patience: u64) -> Controller {
+        Controller {
+            sock_name: env.sock_name.clone(), n_clients: n_clients as i64, hard_deadline, step_patience, force: env.force, fd: -1, state: KState::WaitClients,
+            out: Vec::new(), inbuf: Vec::new(), t0: 0, deadline: 0, probe: true, obs: ControllerObs::default(),
+        }
+    }
+    fn read_final(&mut self, w: &mut World) -> Option<Response> {
+        let mut buf = [0u8; 16384];
+        loop {
+            match rd(self.fd, &mut buf) {
+                Io::N(n) => self.inbuf.extend_from_slice(&buf[..n]),
+                Io::WouldBlock => break,
+                Io::Eof | Io::Err(_) => { self.obs.eof = true; break; }
+            }
+        }
+        while let Ok(Some(payload)) = pop_frame(&mut self.inbuf) {
+            if let Ok(r) = Response::decode(&payload[..]) {
+                w.tr(0x71, r.status as u64);
+                if r.status != ResponseStatus::Processing as i32 { return Some(r); }
+            }
+        }
+        None
+    }
+    fn flush(&mut self) -> bool {
+        while !self.out.is_empty() {
+            match wr(self.fd, &self.out) {
+                Io::N(n) => { self.out.drain(..n); }
+                Io::WouldBlock => return false,
+                _ => { self.obs.eof = true; self.out.clear(); }
+            }
+        }
+        true
+    }
+    fn force_now(&mut self, w: &mut World) -> Step {
+        if !self.obs.forced {
+            self.obs.forced = true;
+            self.force.fire();
+            w.stats.fault("hub_forced_exit");
+        }
+        if self.fd >= 0 { sys::close(self.fd); self.fd = -1; }
+        self.state = KState::Forced(w.now + 5 * SEC);
+        Step::Idle(w.now + SEC)
+    }
+}
+impl Actor for Controller {
+    fn name(&self) -> String { "controller".into() }
+    fn as_any(&mut self) -> &mut dyn Any { self }
+    fn as_any_ref(&self) -> &dyn Any { self }
+    fn class(&self) -> u8 { 2 }
+
+    fn step(&mut self, w: &mut World) -> Step {
+        if w.aborted.is_some() && !matches!(self.state, KState::Forced(_) | KState::Done) { return self.force_now(w); }
+        match self.state.clone() {
+            KState::Done => Step::Done,
+            KState::WaitClients => {
+                if w.board_get("hub_returned") > 0 { self.state = KState::Connect; return Step::Progress; }
+                if w.board_get("clients_done") < self.n_clients && w.now < self.hard_deadline { return Step::Idle(self.hard_deadline); }
+                if w.board_get("clients_done") < self.n_clients { self.obs.waited_out = true; }
+                self.obs.t_end_phase = w.now;
+                w.board_set("end", 1);
+                w.tr(0x70, 0);
+                self.state = KState::Connect;
+                Step::Progress
+            }
+            KState::Connect => {
+                if w.board_get("end") == 0 { w.board_set("end", 1); }
+                let fd = match sys::socket(libc::AF_UNIX, libc::SOCK_STREAM | libc::SOCK_NONBLOCK | libc::SOCK_CLOEXEC, 0) {
+                    Ok(fd) => fd,
+                    Err(e) => { self.obs.probe_connect_error = Some(e); self.state = KState::Done; return Step::Done; }
+                };
+                if let Err(e) = sys::connect_abstract(fd, &self.sock_name) {
+                    // the hub is gone already (a plan client stopped it)
+                    sys::close(fd);
+                    self.obs.probe_connect_error = Some(e);
+                    self.state = KState::Done;
+                    return Step::Done;
+                }
+                self.fd = fd;
+                self.obs.probe_connected = true;
+                self.state = if self.probe { KState::SendProbe } else { KState::SendStop };
+                Step::Progress
+            }
+            KState::SendProbe => {
+                self.out = frame(&Request { request_type: Some(RequestType::Status(Status {})) });
+                self.t0 = w.now;
+                self.deadline = w.now + self.step_patience;
+                self.state = KState::AwaitProbe;
+                Step::Progress
+            }
+            KState::AwaitProbe => {
+                let flushed = self.flush();
+                if let Some(r) = self.read_final(w) {
+                    self.obs.probe_final = Some((r.status, w.now - self.t0));
+                    self.obs.probe_content = r.content;
+                    self.state = KState::SendStop;
+                    return Step::Progress;
+                }
+                if self.obs.eof { sys::close(self.fd); self.fd = -1; self.state = KState::Done; return Step::Done; }
+                if w.now >= self.deadline { self.state = KState::SendStop; return Step::Progress; }
+                let _ = flushed;
+                Step::Idle(self.deadline)
+            }
+            KState::SendStop => {
+                self.out = frame(&Request { request_type: Some(RequestType::HardStop(HardStop {})) });
+                self.deadline = w.now + self.step_patience;
+                self.state = KState::AwaitStop;
+                Step::Progress
+            }
+            KState::AwaitStop => {
+                let _ = self.flush();
+                if let Some(r) = self.read_final(w) { self.obs.stop_final = Some(r.status); }
+                if self.obs.eof {
+                    // the hub dropped us: it is in its Stopping state or gone
+                    sys::close(self.fd);
+                    self.fd = -1;
+                    self.state = KState::Forced(w.now + 4 * self.step_patience);
+                    return Step::Progress;
+                }
+                if w.now >= self.deadline { return self.force_now(w); }
+                Step::Idle(self.deadline)
+            }
+            KState::Forced(t) => {
+                // stay alive as a watchdog until `run()` has returned
+                if w.board_get("hub_returned") > 0 { self.state = KState::Done; return Step::Done; }
+                if w.now >= t {
+                    if !self.obs.forced { return self.force_now(w); }
+                    // the hub ignores its own Stopping state: nothing sane is left
+                    eprintln!("hubsim: the hub does not leave run() even when forced; aborting the process");
+                    std::process::abort();
+                }
+                Step::Idle(t)
+            }
+        }
+    }
+}
+impl Drop for Controller {
+    fn drop(&mut self) { if self.fd >= 0 { sys::close(self.fd); self.fd = -1; } }
+}
+
+/// tolerance of the time checks: scheduling noise of the simulation is microseconds
+pub const EPS_NS: u64 = SEC;
